@@ -55,11 +55,29 @@ func (r *Run) Enabled() []wx.Op {
 					add(OpNewEntityWith, int8(si), int8(j), 0, 0)
 				}
 			}
+			if f&FVal != 0 && len(set) == 0 {
+				add(OpNewEntityWith, int8(si), 1, 0, 0) // no components at all: same as NewEntity()
+			}
 			if rel >= 0 && f&FBuilder != 0 {
 				for _, t := range allTargets {
 					add(OpBuilderNew, int8(si), int8(rel), t, 0)
 					if f&FVal != 0 {
 						add(OpBuilderNew, int8(si), int8(rel), t, 1)
+					}
+				}
+			}
+			if ill && f&FBuilder != 0 {
+				// a target although WithRelation was not called (whatever the components are)
+				for meth := int8(0); meth < 3; meth++ {
+					add(OpBuilderNoRel, int8(si), meth, 0, -1)
+				}
+				if len(targets) > 1 {
+					add(OpBuilderNoRel, int8(si), 0, 0, targets[1])
+				}
+				for s2 := 0; s2 < n; s2++ {
+					if m.Slots[s2].Alive && c.inFocus(s2) && len(set) > 0 && m.Slots[s2].Has&m.setBits(si) == 0 {
+						add(OpBuilderNoRel, int8(si), 3, int8(s2), -1)
+						break
 					}
 				}
 			}
@@ -105,6 +123,9 @@ func (r *Run) Enabled() []wx.Op {
 				if ill {
 					add(OpNewBatchZero, int8(si), 0, 0, 0)
 					add(OpNewBatchZero, int8(si), -1, 0, 0)
+					if f&FVal != 0 && len(set) > 0 {
+						add(OpNewBatchZero, int8(si), 0, 0, 1) // from component values
+					}
 					if rel < 0 && len(set) > 0 {
 						// batch creation with a target although the relation given to the builder is not a relation
 						// component / not among the components
@@ -259,6 +280,17 @@ func (r *Run) Enabled() []wx.Op {
 			}
 			if ill || c.Listener {
 				add(OpAddNone, S, 0, 0, 0)
+			}
+			if ill {
+				add(OpAssignNone, S, 0, 0, 0)
+				if f&FRelX != 0 {
+					for _, ci := range c.Move {
+						if !c.Comps[ci].IsRel() && e.Has&(1<<ci) == 0 {
+							add(OpRelExchangeBad, S, int8(ci), 0, -1) // the relation argument names a component that is not a relation
+							break
+						}
+					}
+				}
 			}
 		}
 		if f&FVal != 0 {
